@@ -11,6 +11,8 @@
    Finding D22 (confirmed on the real code, listed in KNOWN_FINDINGS.txt): a force-push
    leaves the model with expiry height 0, so the model outlives all of its shards. *)
 From SaoVerif Require Import Base.Prelude Base.Ints Base.Dec Model.Did Model.Types Model.Monad Model.Bank Model.Select Model.Node Model.Storage Model.Sao Model.Hooks Model.App Model.Spec Proofs.Schedule.
+From RecordUpdate Require Import RecordUpdate.
+Import RecordSetNotations.
 
 Theorem C11_complete_schedules : forall cx s c p oid cid sz ok s' d, step cx s (OComplete c p oid cid sz ok) = (s', OutTx COk d) ->
   exists sid sh', shards s' !! sid = Some sh' /\ sh_sp sh' = p /\ sh_status sh' = ShardCompleted /\ sh_created sh' = cx_height cx /\
